@@ -21,7 +21,10 @@ class C10(Prop):
     search_budget = {"quick": 500, "thorough": 4000}
 
     def gen(self, rng, i, tier):
-        edges, shape = cc.gen_graph(rng, 4, 10 if tier == "quick" else 11)
+        if rng.random() < 0.2:
+            edges, shape = cc.gen_soup(rng)
+        else:
+            edges, shape = cc.gen_graph(rng, 4, 10 if tier == "quick" else 11)
         n_cl_bound = 60
         case = {"edges": edges, "max_size": rng.choice([0, 0, 2, 3, 4]), "shape": shape,
                 "draws": [rng.randrange(1 << 30) for _ in range(n_cl_bound)]}
@@ -76,6 +79,8 @@ class C10(Prop):
                 "edge_order": [list(e) for e in G.edges()], "node_order": before_nodes}
 
     def request(self, case, obs):
+        if len(cc.nodes_of(case["edges"])) > 12:
+            return None          # the model validates the clique list by brute force over vertex subsets: large graphs are oracle-only
         if "exc" in obs or obs.get("L") is None:
             raise ValueError("the clique list handed to shuffle was not observed")
         return {"op": "c10", "edges": obs["edge_order"], "nodes": obs["node_order"], "max_size": case["max_size"], "L": obs["L"]}
@@ -121,18 +126,13 @@ class C10(Prop):
         # greedy-maximal: every clique (within the limit) has an edge assigned to a cover clique at least as large
         nodes = cc.nodes_of(case["edges"])
         size_of_edge = {tuple(t[0]): t[1][0] for t in obs["labels"]}
-        for k in range(2, len(nodes) + 1):
+        for c in cc.all_cliques(nodes, eset):
+            k = len(c)
             if ms > 0 and k > ms:
-                break
-            found_any = False
-            for c in itertools.combinations(sorted(nodes), k):
-                if cc.is_clique(c, eset):
-                    found_any = True
-                    if not any(size_of_edge[tuple(sorted(p))] >= k for p in itertools.combinations(c, 2)):
-                        f.append(f"not-greedy-maximal: clique {list(c)} has no edge in a cover clique of size >= {k}")
-                        return f
-            if not found_any:
-                break
+                continue
+            if not any(size_of_edge[tuple(sorted(p))] >= k for p in itertools.combinations(c, 2)):
+                f.append(f"not-greedy-maximal: clique {list(c)} has no edge in a cover clique of size >= {k}")
+                return f
         return f
 
     def nontrivial(self, case, obs):
